@@ -144,7 +144,7 @@ fn run_real(r: &Req) -> Obs {
     let strip = |s: &str| s.replace(&prefix, "");
     let q: VecDeque<CommandResult> = r.queue.iter().map(|t| dec_result(t).unwrap()).collect();
     let halt = Arc::new(AtomicBool::new(false));
-    let shared = Rc::new(RefCell::new(Shared { queue: q, log: vec![], invocations: 0, halt_at: None, halt: Some(halt.clone()) }));
+    let shared = Rc::new(RefCell::new(Shared { queue: q, log: vec![], invocations: 0, halt_at: None, halt: Some(halt.clone()), replace_flag: false }));
     let mut context = sdk_context();
     for n in CMDS.iter() {
         context.commands.set(Box::new(Scripted { name: n.to_string(), shared: shared.clone() })).unwrap();
